@@ -67,20 +67,20 @@ def _so3_to_angle_hf0(x00, x02, x12, x20, x21, x22, zero_eps):
     ind1 = beta>(np.pi-zero_eps)
     ind2 = np.logical_not(np.logical_or(ind0, ind1))
     if np.any(ind0):
-        tmp0 = np.arccos(x00) #(0,pi) alpha+gamma
+        tmp0 = np.arccos(x00[ind0]) #(0,pi) alpha+gamma
         alpha[ind0] = tmp0/2
-        gamma[ind0] = alpha
+        gamma[ind0] = tmp0/2
     if np.any(ind1):
-        tmp0 = np.arccos(-x00) #(0,pi) alpha-gamma
+        tmp0 = np.arccos(-x00[ind1]) #(0,pi) alpha-gamma
         alpha[ind1] = tmp0
-        gamma[ind1] = 0*alpha
+        gamma[ind1] = 0
     if np.any(ind2):
         tmp0 = 1/np.sin(beta[ind2])
-        tmp1 = np.arccos(-x20*tmp0) #(0,pi)
-        tmp2 = (x21*tmp0)<0
+        tmp1 = np.arccos(-x20[ind2]*tmp0) #(0,pi)
+        tmp2 = (x21[ind2]*tmp0)<0
         gamma[ind2] = tmp1*np.logical_not(tmp2) + (2*np.pi-tmp1)*tmp2 #(0,2*pi)
-        tmp1 = np.arccos(x02*tmp0) #(0,pi)
-        tmp2 = (x12*tmp0)<0
+        tmp1 = np.arccos(x02[ind2]*tmp0) #(0,pi)
+        tmp2 = (x12[ind2]*tmp0)<0
         alpha[ind2] = tmp1*np.logical_not(tmp2) + (2*np.pi-tmp1)*tmp2 #(0,2*pi)
     return alpha,beta,gamma
 
